@@ -11,9 +11,9 @@ import (
 	"math/rand"
 	"os"
 	"path/filepath"
-	"sort"
 	"reflect"
 	"regexp"
+	"sort"
 	"strings"
 	"sync"
 
